@@ -7,8 +7,10 @@ import (
 	"fmt"
 	"hash/fnv"
 	"os"
+	"os/exec"
 	"runtime"
 	"sort"
+	"strconv"
 	"strings"
 	"testing"
 	"testing/iotest"
@@ -36,9 +38,22 @@ type Case struct {
 	Chunk  int    `json:"chunk,omitempty"`
 	Tree   any    `json:"tree,omitempty"` // plan array or tree to recompose (JSON)
 	Type   int    `json:"type,omitempty"` // index into the target type catalogue
+	// Deep: target "deep" - Shape repeated Deep times (a few megabytes of nesting), handed to the
+	// JSONPath / script parser in a child process, because what goes wrong there ends the process
+	Deep  int    `json:"deep,omitempty"`
+	Shape string `json:"shape,omitempty"`
 }
 
 func TestMain(m *testing.M) {
+	if shape := os.Getenv("VERIF_C06_DEEP_SHAPE"); shape != "" {
+		// child of runDeep: parse and leave; a stack overflow is fatal and can not be recovered
+		n, _ := strconv.Atoi(os.Getenv("VERIF_C06_DEEP_N"))
+		in := deepInput(shape, n)
+		_, err := jp.ParseString(in)
+		_, err2 := jp.NewScript(strings.TrimSuffix(strings.TrimPrefix(in, "$[?"), "]"))
+		fmt.Printf("deep child done: %v %v\n", err != nil, err2 != nil)
+		os.Exit(0)
+	}
 	vrt.InitRapid()
 	vrt.RegisterReplay(suite, "total", Run)
 	suite.Register(classifiers...)
@@ -136,6 +151,63 @@ func Run(cs Case, c *vrt.Ctx) {
 		runPlan(cs, c)
 	case "recompose":
 		runRecompose(cs, c)
+	case "deep":
+		runDeep(cs, c)
+	}
+}
+
+var deepShapes = map[string][3]string{
+	"nots":    {"$[?(", "!", "@.a)]"},
+	"groups":  {"$[?(", "(", "1"},
+	"filters": {"$", "[?(@", ""},
+	"chain":   {"$[?(1", " + 1", " == 2)]"},
+	"lists":   {"$[?(@.a in ", "[", "1"},
+	"nested":  {"$[?(", "(1 + ", "1"},
+}
+
+func deepInput(shape string, n int) string {
+	p := deepShapes[shape]
+	return p[0] + strings.Repeat(p[1], n) + p[2]
+}
+
+// runDeep: megabytes of nesting must end in an error or a result, not in the death of the
+// process (the parsers recurse; a stack overflow is not a panic that could be recovered).
+func runDeep(cs Case, c *vrt.Ctx) {
+	if _, ok := deepShapes[cs.Shape]; !ok {
+		return
+	}
+	c.NonTrivial()
+	c.Sample(map[string]any{"target": "deep", "shape": cs.Shape, "n": cs.Deep})
+	cmd := exec.Command(os.Args[0], "-test.run=^$")
+	cmd.Env = append(os.Environ(), "VERIF_C06_DEEP_SHAPE="+cs.Shape, "VERIF_C06_DEEP_N="+strconv.Itoa(cs.Deep))
+	out, err := cmd.CombinedOutput()
+	if err != nil || !bytes.Contains(out, []byte("deep child done")) {
+		msg := string(out)
+		if i := strings.Index(msg, "fatal error"); i >= 0 {
+			msg = msg[i:]
+		}
+		if len(msg) > 300 {
+			msg = msg[:300]
+		}
+		c.Fail("process-died", "jp.ParseString / jp.NewScript", fmt.Sprintf("%d x %q (%s): %v %s", cs.Deep, deepShapes[cs.Shape][1], cs.Shape, err, msg))
+	}
+}
+
+// TestDeepNesting runs the deep shapes at sizes around what the recursion can take.
+func TestDeepNesting(t *testing.T) {
+	sizes := []int{3000000}
+	shapes := []string{"nots", "filters", "chain"}
+	if vrt.Thorough() {
+		sizes = []int{1000, 50000, 400000, 3000000, 8000000}
+		shapes = []string{"nots", "groups", "filters", "chain", "lists", "nested"}
+	}
+	if i, n := vrt.Shard(); n > 1 && i != 0 {
+		return // once is enough
+	}
+	for _, shape := range shapes {
+		for _, n := range sizes {
+			vrt.Eval(suite, "total", Case{Target: "deep", Shape: shape, Deep: n}, Run)
+		}
 	}
 }
 
